@@ -377,7 +377,7 @@ theorem progress (cfg : Cfg) (hd : cfg.realDriver = false) (base : St) (v3 : Boo
 
 /-- Spelled out: when nothing is owed any more, the registration is complete or was abandoned. -/
 theorem no_stuck_state (cfg : Cfg) (hd : cfg.realDriver = false) (base : St) (v3 : Bool) (s : St) (v : View)
-    (r : PReach cfg base v3 s v) (hls : v.v3 = true → v.lsOwed = false ∧ v.reqs = [] ∧ v.auth = .none)
+    (r : PReach cfg base v3 s v) (hls : v.v3 = true → v.lsOwed = false ∧ v.reqs = [] ∧ v.auth.owed = false)
     (hw : canWelcome v = true → 7 ≤ v.stage) : s.afterConnect = true ∨ v.aborted = true := by
   rcases progress cfg hd base v3 s v r with h | h | h
   · exact .inl h
@@ -388,8 +388,42 @@ theorem no_stuck_state (cfg : Cfg) (hd : cfg.realDriver = false) (base : St) (v3
       rcases h with h | h | h
       · rw [a] at h; cases h
       · exact h b
-      · exact h c
+      · rw [c] at h; cases h
     · have := hw hc; omega
+
+/-- The part of "CAP END only when no request is outstanding" that does hold (the full statement is
+refuted by `cap_end_outstanding_witness`): against a conformant server — which sends neither CAP NEW nor
+CAP DEL during the registration and answers each CAP REQ by one ACK or NAK — once CAP END has been sent
+every capability the bot requested has been ACKed or NAKed, in every joint history. -/
+theorem cap_end_nothing_outstanding_partial (cfg : Cfg) (hd : cfg.realDriver = false) (base : St) (v3 : Bool) (s : St)
+    (v : View) (r : PReach cfg base v3 s v) (hna : v.aborted = false) (hac : s.afterConnect = false)
+    (he : v.ended = true) : ∀ c ∈ s.req, c ∈ s.ack ∨ c ∈ s.nak := by
+  rcases inv_preach hd r with h | h | ⟨_, hp⟩
+  · rw [hna] at h; cases h
+  · rw [hac] at h; cases h
+  · cases hp with
+    | neg _ he' _ _ _ _ _ _ _ _ _ _ => rw [he] at he'; cases he'
+    | sasl _ he' _ _ _ _ _ _ _ _ => rw [he] at he'; cases he'
+    | waiting _ _ _ _ _ _ hres => exact hres
+    | nocap _ _ _ _ hreq => intro c hc; rw [show s.req = (bot s).req from rfl, hreq] at hc; cases hc
+    | motd _ _ _ _ _ hres => exact hres
+
+/-- `authenticate_generator` for every text: full-size lines followed by one final line that is shorter
+than AUTHENTICATE_CHUNK_SIZE, or `+` when nothing is left; concatenated (terminator dropped) they spell the
+text.  `progress` uses it: the server (which takes a full-size line as "more follows") always ends up with a
+complete answer in front of it. -/
+theorem chunks_terminate (a : Str) :
+    ChunksOk Gen.Conn.authenticateChunkSize a (authChunks Gen.Conn.authenticateChunkSize a) :=
+  chunks_ok _ (by have := tabP_chunk; omega) a
+
+/-- every answer `sendSaslString` queues is complete: credentials lines only, the last one not full-size -/
+theorem sasl_answer_complete (bytes : List Nat) (s : St) :
+    ∃ outs, Answer outs ∧ sendSaslString bytes s = { s with fastq := s.fastq ++ outs } :=
+  sendSasl_sends bytes s
+
+example : authChunks 4 "abcdefgh".toList = ["abcd".toList, "efgh".toList, sPlus] := by decide
+example : authChunks 4 "abcdef".toList = ["abcd".toList, "ef".toList] := by decide
+example : authChunks 4 [] = [sPlus] := by decide
 
 /-! non-vacuity of `progress`: a complete conformant registration with SASL PLAIN, step by step -/
 
@@ -439,5 +473,8 @@ theorem jR11 : PReach exCfg {} true jS11.st jV11 :=
 /-- the history is a joint history of the bot and a conformant server, it ends connected, and on the
 way the server owed something at every step -/
 example : jS11.st.afterConnect = true ∧ jV11.aborted = false ∧ jS4.st.fsm = .INIT_WAITING_MOTD ∧ jV2.auth = .mech := by decide
+
+/-- and `cap_end_nothing_outstanding_partial` is not vacuous: after CAP END (`jV4.ended`), not aborted, not yet connected -/
+example : jV4.ended = true ∧ jV4.aborted = false ∧ jS4.st.afterConnect = false ∧ jS4.st.req = [sSasl] := by decide
 
 end C08
